@@ -433,8 +433,8 @@ func (c *L2) lockNames(ks []*sop.LockKey) []any {
 	return out
 }
 
-func (c *L2) FormatLockKey(k string) string                  { return c.Inner.FormatLockKey(k) }
-func (c *L2) CreateLockKeys(keys []string) []*sop.LockKey    { return c.Inner.CreateLockKeys(keys) }
+func (c *L2) FormatLockKey(k string) string               { return c.Inner.FormatLockKey(k) }
+func (c *L2) CreateLockKeys(keys []string) []*sop.LockKey { return c.Inner.CreateLockKeys(keys) }
 func (c *L2) CreateLockKeysForIDs(keys []sop.Tuple[string, sop.UUID]) []*sop.LockKey {
 	return c.Inner.CreateLockKeysForIDs(keys)
 }
